@@ -86,6 +86,10 @@ struct Layout {
     /// I/O fault seam (short reads/writes, EINTR), seeded
     #[serde(default)]
     io_seed: Option<u64>,
+    /// hard I/O fault: (true, n) = ENOSPC after n bytes of CSV; (false, permille) = EIO after
+    /// that share of the input bytes
+    #[serde(default)]
+    io_hard: Option<(bool, u64)>,
 }
 
 #[derive(Clone, Debug, Serialize, Deserialize, PartialEq)]
@@ -493,8 +497,19 @@ impl Check for C20Check {
                 argv_seed: r.next_u64(),
                 hash_seed: r.next_u64() >> 1,
                 io_seed: if r.chance(1, 3) { Some(r.next_u64() >> 1) } else { None },
+                io_hard: None,
             })
-            .collect();
+            .collect::<Vec<_>>();
+        let mut layouts = layouts;
+        if index % 5 == 2 {
+            // separate stream: the other scenario dimensions keep their values
+            let mut rh = Rng::new(seed ^ 0x10_4a2d_5eed);
+            layouts[0].io_hard = Some(if rh.chance(1, 2) {
+                (true, *rh.pick(&[0u64, 1, 20, 60, 100]) + if rh.chance(1, 2) { rh.below(6000) } else { 0 })
+            } else {
+                (false, rh.below(1001))
+            });
+        }
         serde_json::to_value(Scn { run_number: *r.pick(&[1u32, 9000, 11084, 4_000_000_000]), boards, layouts }).unwrap()
     }
 
@@ -573,7 +588,20 @@ impl Check for C20Check {
                 &args,
                 &[],
                 &format!("out{li}"),
-                &RunEnv { hash_seed: Some(lay.hash_seed), real_rayon: true, io_seed: lay.io_seed, ..Default::default() },
+                &RunEnv {
+                    hash_seed: Some(lay.hash_seed),
+                    real_rayon: true,
+                    io_seed: lay.io_seed,
+                    io_hard: lay.io_hard.map(|(w, n)| {
+                        if w {
+                            (true, n)
+                        } else {
+                            let total: u64 = args.iter().map(|p| std::fs::metadata(p).map(|m| m.len()).unwrap_or(0)).sum();
+                            (false, total * n.min(1000) / 1000)
+                        }
+                    }),
+                    ..Default::default()
+                },
             );
             log.u64(res.success as u64).u64(res.csv.is_some() as u64);
             let narrowed = {
@@ -589,6 +617,16 @@ impl Check for C20Check {
                     narrowed,
                 });
                 continue;
+            }
+            if res.hard_fired {
+                // a delivered EIO / ENOSPC allows the program to fail - nothing else; if it
+                // reports success all the same, every oracle of a fault-free run applies
+                stats.fault(if lay.io_hard.map_or(false, |h| h.0) { "io_hard_enospc_while_writing_csv" } else { "io_hard_eio_while_reading_midas_file" });
+                if !res.success {
+                    stats.probe("hard_io_fault_makes_program_fail");
+                    continue;
+                }
+                stats.probe("hard_io_fault_delivered_but_program_reports_success");
             }
             if unasserted {
                 continue;
@@ -784,6 +822,13 @@ impl Check for C20Check {
             for i in 0..scn.layouts.len() {
                 let mut s = scn.clone();
                 s.layouts.remove(i);
+                push(s);
+            }
+        }
+        for (li, l) in scn.layouts.iter().enumerate() {
+            if l.io_hard.is_some() {
+                let mut s = scn.clone();
+                s.layouts[li].io_hard = None;
                 push(s);
             }
         }
